@@ -157,7 +157,6 @@ func TestC06(t *testing.T) {
 							// the nonce store is in trouble exactly when the replay arrives
 							lw.chaos.ResetCalls()
 							lw.chaos.Fail = func(op string, n int) bool { return op == "CheckAndSaveNonce" }
-							defer func() { lw.chaos.Fail = nil }()
 						}
 					case "too-old":
 						old := time.Now().Add(-16 * time.Minute).UnixNano()
@@ -265,6 +264,8 @@ func TestC06(t *testing.T) {
 	}
 	for _, driver := range vlib.Drivers() {
 		c06ManyRefusals(ev, driver)
+		driver := driver
+		parallelCases(vlib.Scale(10, 200), 2, func(i int) { c06ReplayAfterContention(ev, driver, i) })
 	}
 	finish(t, ev)
 }
